@@ -69,6 +69,10 @@ CLAIMED = {
          "Trace validation of the real MySQL / PostgreSQL renderings of the TLC-generated statement space: ParseStmt_B(Lex_B(sql)) must be accepted and equal Expected(B, builder state) — every supported clause once, in the position the grammar requires, items in call order, expressions as built, dialect forms (ON DUPLICATE KEY UPDATE / VALUES(col), UPDATE..JOIN..ON, ROW(..), NULLS emulation, index hints; DISTINCT ON, excluded.col, NULLS FIRST/LAST) in their own dialect only.",
          "Trusted: the transcribed MySQL 8.0 / PostgreSQL 15 grammars (no engine available; permissive where the manuals are silent). Several known findings (named WINDOW clause, WITH before INSERT, ON DUPLICATE KEY IGNORE, dropped second JOIN table).",
          "§5 C08, Appendix C.3"),
+ "C09": ("Portable(s) feature subset and a token-level transliteration MySQL/PostgreSQL -> SQLite spelling in TLA+ (Portable.tla); TLC requires token equality of the transliterated renderings with the SQLite rendering; the three texts are executed on the real SQLite and must agree",
+         "Trace validation over the portable part of the TLC-generated statement space: after translating nothing but lexical spelling and the documented function substitutions the MySQL and PostgreSQL renderings must be token-equal to the SQLite rendering (MySQL NULLS emulation excepted), and inline and parameterised forms of all three, executed on SQLite over the fixture, must return identical rows and table contents — which validates the NULLS FIRST/LAST emulation.",
+         "Trusted: SQLite as execution proxy for the transliterated MySQL/PostgreSQL texts (engine-specific semantics not observed); TLC; Portable(s).",
+         "§5 C09"),
 }
 NA = {
  "C20": "Type-level fact about Rust auto-traits decided only by rustc's trait solver; no state, transition or observable behaviour to model or trace (DESIGN.md §5 C20).",
